@@ -33,7 +33,7 @@ func onePage(api API, fh nt.Nfs_fh3, r pageReq) (ents []DirEntry, eof bool, st n
 		if res.Resok.Reply.Entries != nil {
 			// the reply is the caller's: another listing served before it has been read (a client that keeps a page
 			// while it asks for the next, a transport that encodes later) must not change it
-			api.NFSPROC3_READDIRPLUS(nt.READDIRPLUS3args{Dir: fh, Cookie: 0, Dircount: 65536, Maxcount: 65536})
+			api.NFSPROC3_READDIRPLUS(nt.READDIRPLUS3args{Dir: fh, Cookie: 0, Dircount: 512, Maxcount: 1500})
 		}
 		for e := res.Resok.Reply.Entries; e != nil; e = e.Nextentry {
 			de := DirEntry{Name: string(e.Name), Fileid: uint64(e.Fileid), Cookie: uint64(e.Cookie)}
